@@ -248,6 +248,12 @@ def overwrite(ctx, obs, rule='OVERWRITE'):
         r = ctx.dep.result(q)
         rem = [c for c in r.calls if any(x.endswith('file_io.remove_file') for x in c.callees)]
         wr = [c for c in r.calls if any(x.endswith(('write_dict_hdf5', 'write_dict_pkl')) for x in c.callees)]
+        deleg = _delegates(ctx, q)
+        if not rem and not wr and deleg:
+            for con_ in ('save removes an existing file only through remove_file', 'remove_file runs only when overwrite is requested',
+                         "file_type 'hdf5' reaches exactly the writer write_dict_hdf5", "file_type 'pkl' reaches exactly the writer write_dict_pkl"):
+                obs.unk(rule, q, con_, f'saving is delegated to `{deleg[0]}`', where(prog, f, f.node))
+            continue
         obs.check(len(rem) == 1, rule, q, 'save removes an existing file only through remove_file', f'{len(rem)} remove_file calls',
                   '', where(prog, f, f.node))
         for c in rem:
@@ -363,14 +369,32 @@ def codec(ctx, obs, rule='CODEC'):
               f'{len(uses)} uses', '', where(prog, rf, rf.node))
 
 
+def _delegates(ctx, q):
+    """calls in q to functions that do not exist in the pinned tree (new helpers, any module), by name"""
+    from ..check import _is_new_function
+    r = ctx.dep.result(q)
+    out = []
+    for c in r.calls:
+        for g in c.callees:
+            if _is_new_function(g):
+                out.append(g)
+    return out
+
+
 def loaders(ctx, obs, rule='EXH-class'):
     prog = ctx.prog
     for q, reader in (('rdm.rdms.load_rdm', 'rdms_from_dict'), ('data.dataset.load_dataset', 'dataset_from_dict'),
                       ('inference.result.load_results', 'result_from_dict')):
         f = prog.func(q)
         calls = [_leaf(c.func) for c in ast.walk(f.node) if isinstance(c, ast.Call)]
-        obs.check('read_dict_hdf5' in calls and 'read_dict_pkl' in calls and reader in calls, rule, q,
-                  f'{q.split(".")[-1]} reads both file types and rebuilds through {reader}', f'calls {calls}', '', where(prog, f, f.node))
+        con = f'{q.split(".")[-1]} reads both file types and rebuilds through {reader}'
+        deleg = _delegates(ctx, q)
+        if 'read_dict_hdf5' in calls and 'read_dict_pkl' in calls and reader in calls:
+            obs.ok(rule, q, con, '', where(prog, f, f.node))
+        elif deleg and not ({'read_dict_hdf5', 'read_dict_pkl'} & set(calls)):
+            obs.unk(rule, q, con, f'reading is delegated to `{deleg[0]}`', where(prog, f, f.node))
+        else:
+            obs.bad(rule, q, con, f'calls {calls}', where(prog, f, f.node))
         tails = [n for n in ast.walk(f.node) if isinstance(n, ast.If) and isinstance(n.test, ast.Compare)
                  and isinstance(n.test.left, ast.Name) and n.test.left.id == 'file_type'
                  and not (len(n.orelse) == 1 and isinstance(n.orelse[0], ast.If))]
